@@ -354,6 +354,15 @@ class Evaluator:
             return a
         if isinstance(a, Raised) and isinstance(b, Raised):
             return a
+        if test.kind == 'nz' and isinstance(a, Scalar) and isinstance(b, Scalar) and test.rf is not None:
+            # (a if s != 0 else b) is a when b is what a takes at s = 0  (`x if x else 0`)
+            at = test.rf.as_atom()
+            if at is not None and at.kind == 'sym':
+                try:
+                    if a.rf.subs({at.name: A.rf(0)}).equals(b.rf.subs({at.name: A.rf(0)})):
+                        return a
+                except (ZeroDivisionError, ValueError, ArithmeticError):
+                    pass
         return Cond(test, a, b)
 
     def restrict(self, v: AV, test: Test, pol: bool) -> AV:
@@ -617,7 +626,7 @@ class Evaluator:
         if kind == 'module':
             return ModRef(r[1])
         if kind == 'external':
-            if r[1] == 'math' and r[2] in ('pi', 'e'):
+            if r[1] == 'math' and r[2] in ('pi', 'e', 'inf'):
                 return Scalar(A.sym(r[2]))
             return ExtRef(r[1], r[2])
         if kind == 'const':
@@ -1010,8 +1019,8 @@ class Evaluator:
             if base.attr is None:
                 if base.mod == 'math' and attr == 'pi':
                     return Scalar(A.sym('pi'))
-                if base.mod == 'math' and attr == 'e':
-                    return Scalar(A.sym('e'))
+                if base.mod == 'math' and attr in ('e', 'inf'):
+                    return Scalar(A.sym(attr))
                 return ExtRef(base.mod, attr)
             if base.mod == 'builtins' and base.attr == 'object' and attr == '__new__':
                 return ExtRef('object', '__new__')
